@@ -64,6 +64,8 @@ func crashClass(trace string) string {
 	return line
 }
 
+const c04VictimName = "victim-4c7a91e2.dat"
+
 type c04Batch struct {
 	e     *Env
 	root  string
@@ -242,9 +244,21 @@ func (b *c04Batch) runCase(c hcase) bool {
 		}
 	}
 	if d := b.victimStep(); d != "" {
-		run.Violate("victim-disturbed", c.Family, fmt.Sprintf("[%s/%s] %s", c.Family, c.Name, d), wit)
 		b.victim.Close()
 		b.victim = nil
+		// With writing enabled a (mutated) request may name the victim's file and legitimately truncate or
+		// replace it: then the transfer ends because of what a client asked for, not because the server was
+		// disturbed. The fixture is compared with what was written at the start; only an unchanged fixture
+		// makes the failed transfer a verdict. The fixture is put back and the victim starts again.
+		if cur, err := os.ReadFile(filepath.Join(b.root, filepath.FromSlash(b.victimPath))); b.cfg.AllowWrite && (err != nil || !bytes.Equal(cur, b.victimData)) {
+			run.Count("victim_fixture_changed_by_a_write_request", 1)
+			os.Remove(filepath.Join(b.root, filepath.FromSlash(b.victimPath)))
+			os.WriteFile(filepath.Join(b.root, filepath.FromSlash(b.victimPath)), b.victimData, 0o644)
+			b.stop()
+			b.start()
+			return false
+		}
+		run.Violate("victim-disturbed", c.Family, fmt.Sprintf("[%s/%s] %s", c.Family, c.Name, d), wit)
 	}
 	return true
 }
@@ -831,7 +845,10 @@ func C04(e *Env) {
 	p4 := bytes.Clone(plain)
 	copy(p4[maskBegin:], wmDec)
 	must(os.WriteFile(filepath.Join(root, "k3", "dec3k3y.iso"), p4, 0o644))
-	victimData, _ := os.ReadFile(filepath.Join(root, "big.bin"))
+	// the victim transfers a file that no generated request names, so that no request — mutated ones
+	// included — can legitimately change it under the victim's feet
+	victimData := tree.Content(4711, 200000)
+	must(os.WriteFile(filepath.Join(root, c04VictimName), victimData, 0o644))
 
 	disk := c04Disk(e, root, rng)
 	var streams []hcase
@@ -931,7 +948,7 @@ func C04(e *Env) {
 			w, err := os.Create(filepath.Join(e.Scratch, "c04."+pl.name+".wal"))
 			must(err)
 			defer w.Close()
-			b := &c04Batch{e: e, root: root, cfg: pl.cfg, tag: "c04-" + pl.name, memKB: pl.mem, wal: w, victimPath: "/big.bin", victimData: victimData}
+			b := &c04Batch{e: e, root: root, cfg: pl.cfg, tag: "c04-" + pl.name, memKB: pl.mem, wal: w, victimPath: "/" + c04VictimName, victimData: victimData}
 			b.start()
 			defer b.stop()
 			deaths := 0
@@ -981,7 +998,8 @@ func c04ManyClients(e *Env, root string) {
 			continue
 		}
 		addr := p.HostPort()
-		want, _ := os.ReadFile(filepath.Join(root, "big.bin"))
+		want := tree.Content(4711, 200000)
+		os.WriteFile(filepath.Join(root, c04VictimName), want, 0o644)
 		victim, verr := wire.Dial(addr, nil, e.Watchdog)
 		victimOK := func(stage string) bool {
 			if verr != nil {
@@ -990,10 +1008,10 @@ func c04ManyClients(e *Env, root string) {
 			if stage == "before" {
 				// the file is opened once: while descriptors are exhausted the victim only goes on reading
 				// from the handle it already has (a *new* open may fail for lack of descriptors)
-				if err := victim.Send(wire.P(wire.OpOpen, "/big.bin")); err != nil {
+				if err := victim.Send(wire.P(wire.OpOpen, "/"+c04VictimName)); err != nil {
 					return false
 				}
-				if b, st := victim.ReadN(16); st != wire.Full || len(b) != 16 {
+				if b, st := victim.ReadN(16); st != wire.Full || len(b) != 16 || wire.DecodeOpen(b).Size != int64(len(want)) {
 					return false
 				}
 			}
@@ -1002,6 +1020,9 @@ func c04ManyClients(e *Env, root string) {
 			return st == wire.Full && bytes.Equal(b, want)
 		}
 		okBefore := victimOK("before")
+		if !okBefore && p.Alive() {
+			run.Inconclusive(fmt.Sprintf("many-clients: the victim's transfer did not work before the crowd arrived (ulimit -n %d)", lim))
+		}
 		var crowd []net.Conn
 		for i := 0; i < lim+40; i++ {
 			c, err := net.DialTimeout("tcp", addr, 2*time.Second)
